@@ -292,11 +292,30 @@ fn same_graph(got: &RefGraph, want: &RefGraph) -> Result<(), String> {
     Ok(())
 }
 
+/// Any `p <word> <number>` line declaring more than the supported size, whatever surrounds it
+/// (the reader allocates on the header before it sees the rest of the file).
+fn declares_huge_size(bytes: &[u8]) -> bool {
+    for line in bytes.split(|b| *b == b'\n') {
+        let l = String::from_utf8_lossy(line);
+        let toks: Vec<&str> = l.split_whitespace().collect();
+        if toks.len() >= 3 && toks[0] == "p" {
+            let t = toks[2].trim_start_matches('+');
+            if !t.is_empty() && t.bytes().all(|b| b.is_ascii_digit()) {
+                let digits = t.trim_start_matches('0');
+                if digits.len() > 6 || digits.parse::<u64>().map_or(true, |v| v > crate::refparse::MAX_DECLARED) && !digits.is_empty() {
+                    return true;
+                }
+            }
+        }
+    }
+    false
+}
+
 /// The oracle shared with the fuzz target. Returns a class name for statistics.
 pub fn check_bytes(fmt: u8, bytes: &[u8]) -> Result<&'static str, Failure> {
     let name = if fmt == 0 { "iccma23" } else { "aspartix" };
     let expected = if fmt == 0 { ref_iccma(bytes) } else { ref_apx(bytes) };
-    if expected == RefOutcome::TooLarge {
+    if expected == RefOutcome::TooLarge || (fmt == 0 && declares_huge_size(bytes)) {
         return Ok("excluded-declared-size-too-large");
     }
     let data = bytes.to_vec();
@@ -391,6 +410,19 @@ impl Prop for Readers {
     }
     fn n_cases(&self, tier: Tier) -> u32 {
         tier.pick(5_000_000, 60_000_000)
+    }
+    fn extra_phase(&self, tier: Tier, seed: u64, rec: &mut Rec) -> Result<(), (ReaderCase, Failure)> {
+        // corpus: a few well-formed and corrupted files from the grammar generators, reader selector byte first
+        let strat = prop_oneof![iccma_case(6, 0), apx_case(6, 0), iccma_case(6, 2), apx_case(6, 2)].boxed();
+        let seeds: Vec<Vec<u8>> = (0..24)
+            .map(|k| {
+                let c = crate::engine::sample_strategy(&strat, seed, "C13-corpus", k);
+                let mut b = vec![c.fmt];
+                b.extend_from_slice(&c.bytes);
+                b
+            })
+            .collect();
+        crate::fuzzphase::fuzz_phase::<ReaderCase>("readers", tier, seed, rec, seeds, 1_500_000, 400)
     }
     fn run(&self, case: &ReaderCase, rec: &mut Rec) -> CheckResult {
         rec.eval();
